@@ -340,3 +340,28 @@ INFO_KEYWORDS = {
     'minsqcost': 'minimising sum of square of ranks', 'lmb': 'load max balanced',
     'lsb': 'load sum balanced', 'mincostlsb': 'minimising costs with lecturer load balancing',
 }
+
+
+def line_matches(crit, line):
+    """Does an '- optimisation: ...' line of the results talk about criterion *crit*?
+    Recognised by word stems, so rewording that keeps the meaning does not alarm."""
+    l = line.lower()
+    if crit == 'maxsize':
+        return 'maxim' in l and 'size' in l
+    if crit == 'minsize':
+        return 'minim' in l and 'size' in l
+    if crit == 'gen':
+        return 'generous' in l
+    if crit == 'gre':
+        return 'greedy' in l
+    if crit == 'minsqcost':
+        return 'squar' in l
+    if crit == 'mincostlsb':
+        return ('cost' in l or 'rank' in l) and 'load' in l
+    if crit == 'mincost':
+        return ('cost' in l or 'rank' in l) and 'squar' not in l and 'load' not in l
+    if crit == 'lmb':
+        return 'load' in l and 'max' in l and 'cost' not in l and 'rank' not in l
+    if crit == 'lsb':
+        return 'load' in l and 'sum' in l and 'cost' not in l and 'rank' not in l
+    return False
